@@ -361,6 +361,59 @@ fn check_encoding(acc: &mut Acc, order: (u32, u64), enc: &'static Encoding, seed
     }
 }
 
+/// A byte-order mark must be removed also when the very first refill fails with a transient I/O error
+/// and the caller simply reads on.
+fn bom_after_transient_error(acc: &mut Acc, order: (u32, u64)) {
+    use crate::env::Fault;
+    let docs: [&[u8]; 3] = [b"\xEF\xBB\xBF<?xml version=\"1.0\"?><r>t</r>", b"\xEF\xBB\xBF<r/>", b"\xEF\xBB\xBFtext<r/>"];
+    for doc in docs {
+        for piece in [0usize, 4, 5] {
+            for kind in [std::io::ErrorKind::WouldBlock, std::io::ErrorKind::TimedOut] {
+                let mut script = Script::pieces(piece);
+                script.faults.push((0, Fault::Hard(kind)));
+                let clean = Script::pieces(piece);
+                let run = |sc: &Script| -> Result<Vec<String>, String> {
+                    guarded_mut(|| {
+                        let mut reader = Reader::from_reader(Source::new(doc, sc));
+                        let mut buf = Vec::new();
+                        let mut evs = Vec::new();
+                        let mut io_errors = 0;
+                        for _ in 0..doc.len() + 8 {
+                            buf.clear();
+                            match reader.read_event_into(&mut buf) {
+                                Ok(Event::Eof) => break,
+                                Ok(e) => evs.push(format!("{:?}", e)),
+                                Err(quick_xml::Error::Io(_)) => {
+                                    io_errors += 1;
+                                    if io_errors > 1 {
+                                        break;
+                                    }
+                                }
+                                Err(e) => {
+                                    evs.push(format!("Err({:?})", e));
+                                    break;
+                                }
+                            }
+                        }
+                        evs
+                    })
+                    .map_err(|p| format!("panic: {}", p))
+                };
+                acc.evaluations += 1;
+                acc.traces += 1;
+                match (run(&clean), run(&script)) {
+                    (Ok(a), Ok(b)) if a == b => acc.nt_count += 1,
+                    (a, b) => acc.violation(
+                        order,
+                        format!("document {:?}, pieces of {}: after a transient {:?} at the first refill the events are {:?}; without the fault {:?}", lossy(doc), piece, kind, b, a),
+                        json!({"encoding": "UTF-8", "variant": "BOM after transient error"}),
+                    ),
+                }
+            }
+        }
+    }
+}
+
 pub fn run(ctx: &Ctx) {
     ctx.set_rule(
         "for every encoding_rs encoding that reports itself ASCII-compatible (36 of 40): the alphabet is EVERY one- and two-byte high \
@@ -369,7 +422,7 @@ pub fn run(ctx: &Ctx) {
          a `]`), text; each document is transcoded from its UTF-8 original, labelled in its declaration, and read from a slice and a \
          buffered source (whole, pieces of 1, 2, 3, 4 and 7), also behind a line feed; for UTF-8 also behind a BOM. Oracle: the same event kinds, every payload decoded \
          with the reader's decoder (and unescaped) equals the original string, the decoder reports the declared encoding after the \
-         declaration, Reader::from_str keeps UTF-8 whatever is declared, no BOM inside an event. Malformed: every lead byte / (lead, \
+         declaration, Reader::from_str keeps UTF-8 whatever is declared, no BOM inside an event — also when the very first refill fails with a transient I/O error and the caller reads on. Malformed: every lead byte / (lead, \
          trail) pair the encoding rejects, injected into an attribute value and into text, in the middle and as the very end of the payload => an error from decode() and decode_into() alike, never replacement characters. \
          evaluations = documents read; non-trivial = documents that were read and compared; states = (encoding, document size)",
     );
@@ -378,6 +431,9 @@ pub fn run(ctx: &Ctx) {
     let seed = ctx.seed;
     ctx.layer("encodings", 0, encs.len() as u64, json!({"encodings": encs.iter().map(|e| e.name()).collect::<Vec<_>>()}), |i, acc| {
         check_encoding(acc, (0, i), encs[i as usize], seed);
+        if encs[i as usize] == encoding_rs::UTF_8 {
+            bom_after_transient_error(acc, (0, i));
+        }
     });
 }
 
